@@ -85,7 +85,7 @@ func checkC07(c *vkit.Ctx) {
 
 func runC07(c *vkit.Ctx, lab *Lab, r *rand.Rand, i int) {
 	lab.Wipe()
-	lc := lab.Gen(r, LabOpts{RunFilter: true, Counts: true, Stale: true, Shuffle: true, Hostile: true, Fuzz: true, Parallel: true})
+	lc := lab.Gen(r, LabOpts{RunFilter: true, Counts: true, Stale: true, Shuffle: true, Hostile: true, Fuzz: true, Parallel: true, Bench: true})
 	prog, trimmed := lab.prog(i)
 	if trimmed {
 		lc.Classes["trimpath-build"] = true
@@ -97,7 +97,7 @@ func runC07(c *vkit.Ctx, lab *Lab, r *rand.Rand, i int) {
 	}
 	own := BuildOwned(rec)
 	sd := lab.Seed(r, own, LabOpts{Stale: true, Shuffle: true, Hostile: true, TornTail: true})
-	res := prog.RunChild(RunOpt{PkgDir: lab.PkgDir, Scenario: lc.Scenario, Run: lc.Run, Count: lc.Count, Extra: lc.Flags, Update: lc.Update})
+	res := prog.RunChild(RunOpt{PkgDir: lab.PkgDir, Scenario: lc.Scenario, Run: lc.Run, Count: lc.Count, Extra: lc.RunnerFlags(), Update: lc.Update})
 	in := labSample(lc)
 	if !res.Complete {
 		c.Violate("clean-did-not-complete", "", fmt.Sprintf("child died: %v %s", res.Err, res.Stderr), in)
@@ -191,7 +191,7 @@ func runC07(c *vkit.Ctx, lab *Lab, r *rand.Rand, i int) {
 		c.Count("entry_checks", 1)
 	}
 	// follow-up read-only process: everything addressed still replays
-	res3 := prog.RunChild(RunOpt{PkgDir: lab.PkgDir, Scenario: lc.Scenario, Run: lc.Run, Count: lc.Count, Extra: lc.Flags, CI: true})
+	res3 := prog.RunChild(RunOpt{PkgDir: lab.PkgDir, Scenario: lc.Scenario, Run: lc.Run, Count: lc.Count, Extra: lc.RunnerFlags(), CI: true})
 	if res3.Complete {
 		a3 := Analyze(res3, lab.Src)
 		was := map[string]string{}
